@@ -749,9 +749,17 @@ snarf_dt(const char *eof, const char *vp, const char *const ep)
 				/* don't worry about the zone spec */
 				;
 			} else {
-				const char *const zn = eof + strlenof(tzid);
-				const size_t nzn = neo - zn;
-				echs_tzob_t z = echs_tzob(zn, nzn);
+				const char *zn = eof + strlenof(tzid);
+				size_t nzn = neo - zn;
+				echs_tzob_t z;
+
+				if (nzn >= 2U &&
+				    zn[0U] == '"' && zn[nzn - 1U] == '"') {
+					/* a quoted parameter value */
+					zn++;
+					nzn -= 2U;
+				}
+				z = echs_tzob(zn, nzn);
 
 				res = echs_instant_attach_tzob(res, z);
 			}
